@@ -80,6 +80,24 @@ def _mk_local():
     return LE, LD
 LE, LD = _mk_local()
 
+import http
+import string
+import ipaddress as _ipa
+GT = TypeVar("GT")
+
+@dataclass
+class Env(Generic[GT], DataClassDictMixin):
+    payload: GT
+    items: List[GT] = field(default_factory=list)
+
+@dataclass
+class EnvStatus(Env[http.HTTPStatus]):
+    note: str = ""
+
+@dataclass
+class EnvAddr(Env[_ipa.IPv4Address]):
+    pass
+
 @dataclass
 class TwoEnums(DataClassDictMixin):
     x: E1
@@ -112,6 +130,7 @@ TYPES = [
     ("list_made", "List[MadeDC]"), ("local_dc", "LD"), ("mproxy", "MappingProxyType[str, LE]"),
     ("ddict_local", "DefaultDict[str, LD]"), ("ddict_enum", "DefaultDict[str, LE]"), ("opt_local", "Optional[LD]"),
     ("lit_local_enum", "Literal[LE.X]"), ("dict_enum_key", "Dict[E1, E2]"), ("mproxy_int", "MappingProxyType[str, int]"),
+    ("env_status", "EnvStatus"), ("env_addr", "EnvAddr"), ("env_generic", "Env[http.HTTPStatus]"),
     ("odict_made", "OrderedDict[str, MadeDC]"), ("counter", "Counter[str]"), ("chain_fn", "ChainMap[str, FnEnumVar]"),
 ]
 
